@@ -11,7 +11,7 @@ R04.3 (K6) the Identity read buffer always holds payload_size bytes: sized from 
 R04.4 (K7) flush completeness: Sink::poll_flush can complete (return anything but Pending / Ready(Err)) only over the edges where
       pending_out_frame and pending_out_frames are both empty; after the transport refused a frame (Pending) every exit is
       Pending or Ready(Err)
-R04.5 (K11, thorough) poll_ready / poll_flush / poll_next return Pending only behind an inner Pending
+R04.5 (K11) poll_ready / poll_flush / poll_next return Pending only behind an inner Pending
 Not decided: equality of received and sent sequences; behaviour under flow control (values / schedules).
 """
 import re
@@ -354,7 +354,7 @@ def run(ctx):
             r04_3(ctx, fx)
         r04_2(ctx, fx)
         r04_4(ctx, fx)
-        if ctx.tier == "thorough" and cfg == "default":
+        if cfg == "default":
             r04_5(ctx, fx)
     ctx.assume("tokio write_all / write_all_chunks write the whole buffer or fail; the transports' poll_write registers the waker when Pending")
     ctx.assume("UnsignedVarint(None) means 'no maximum': allocation is then bounded only by the varint range (configuration choice)")
